@@ -74,6 +74,26 @@ ZeroColumnLaw ==
     LET P == FTPhaseExp(shape, axes, sign, hc, shifts, [i \in 1..Len(axes) |-> <<0, 1>>])
     IN  \A k \in 1..Len(P) : P[k][1] \in {0, -1}
 
+(* ------------- layer C against layer A on complete multi-axis tables ------------- *)
+\* the implementation-shaped per-axis model (reciprocal_grid points, pre / post phase vectors, FFT
+\* direction) assembled over all transformed axes gives exactly the reference phase table
+RG == INSTANCE RecipGridImpl WITH MaxN <- 0, X0Set <- {}, Fixed <- FALSE,
+                                  n <- 0, shift <- FALSE, halved <- FALSE, sign <- 0, r <- <<0, 1>>
+ImplEntry(M, kk, jj) ==
+  IF \E a \in 1..Len(shape) : (a - 1) \notin AxSet(axes) /\ kk[a] # jj[a] THEN -1
+  ELSE LET turn == QSumSeq([i \in 1..Len(axes) |->
+                     RG!Impl_turn(AxLen(shape, axes, i), shifts[i], hc /\ i = Len(axes), sign, X0[i],
+                                  kk[axes[i] + 1], jj[axes[i] + 1])])
+           t == RG!Frac(turn)
+       IN  IF M % t[2] # 0 THEN -4 ELSE t[1] * (M \div t[2])
+ImplTableRefines ==
+  (Full /\ Kind = "ft") =>
+    LET M  == FTPeriod(shape, axes, X0)
+        KK == AllIdx(RanShape(shape, axes, hc))
+        JJ == AllIdx(shape)
+        P  == FTPhaseExp(shape, axes, sign, hc, shifts, X0)
+    IN  \A k \in 1..Len(KK) : \A j \in 1..Len(JJ) : ImplEntry(M, KK[k], JJ[j]) = P[k][j]
+
 (* -------------------------------- export ------------------------------- *)
 Line ==
   IF Kind = "dft"
